@@ -146,7 +146,10 @@ class Builder:
         self.build_s = time.time() - t0
         return bins
 
-UNIT_CFGS = [('g++', '-O0'), ('g++', '-O2'), ('clang++', '-O0'), ('clang++', '-O2')]
+# (compiler, flags, label); the fifth configuration carries the flags of the property binaries themselves (sanitizers on), so that every constant -
+# not only the handful the harness reads in-process - is also observed under them
+UNIT_CFGS = [('g++', ['-O0'], 'g++_O0'), ('g++', ['-O2'], 'g++_O2'), ('clang++', ['-O0'], 'clang++_O0'), ('clang++', ['-O2'], 'clang++_O2'),
+             ('g++', ['-O1', '-fsanitize=address,undefined', '-fno-sanitize-recover=undefined'], 'g++_O1_sanitizers')]
 
 def build_units_probes(b):
     """C20 'every build': compile src/Natural_Units.cpp with each compiler/optimisation level together with a generated probe that
@@ -157,9 +160,9 @@ def build_units_probes(b):
     names = []
     for decl in re.findall(r'extern\s+const\s+double\s+([^;]+);', open(hdr).read()):
         names += [n.strip() for n in decl.split(',') if n.strip()]
-    key = sha(read(src), b.hdr_hash, repr(UNIT_CFGS), 'v3')
+    key = sha(read(src), b.hdr_hash, repr(UNIT_CFGS), 'v4')
     outdir = os.path.join(BUILD, 'units', key)
-    if all(os.path.exists(os.path.join(outdir, '%s_%s.txt' % (cxx, opt[1:]))) for cxx, opt in UNIT_CFGS):
+    if all(os.path.exists(os.path.join(outdir, '%s.txt' % label)) for cxx, opt, label in UNIT_CFGS):
         return outdir
     os.makedirs(outdir, exist_ok=True)
     probe = os.path.join(outdir, 'probe.cpp')
@@ -169,22 +172,22 @@ def build_units_probes(b):
             f.write('  std::printf("%s %%a\\n", %s);\n' % (n, n))
         f.write('  return 0;\n}\n')
     def one(cfg):
-        cxx, opt = cfg
-        exe = os.path.join(outdir, 'probe_%s_%s' % (cxx, opt[1:]))
+        cxx, opt, label = cfg
+        exe = os.path.join(outdir, 'probe_%s' % label)
         # only the constants are referenced: unused functions (In_Units, ...) are dropped at link time, so the rest of the library is not needed
-        cmd = [cxx, '-std=c++14', opt, '-w', '-ffunction-sections', '-fdata-sections'] + b.inc + [src, probe, '-Wl,--gc-sections', '-o', exe]
+        cmd = [cxx, '-std=c++14'] + opt + ['-w', '-ffunction-sections', '-fdata-sections'] + b.inc + [src, probe, '-Wl,--gc-sections', '-o', exe]
         r = run(cmd)
         if r.returncode != 0:
             r = run(cmd + ['-Wl,--unresolved-symbols=ignore-all'])
         if r.returncode != 0:
             raise RuntimeError('unit probe build failed for %s %s\n%s' % (cxx, opt, r.stdout[-3000:]))
-        rr = run([exe])
+        rr = subprocess.run([exe], stdout=subprocess.PIPE, stderr=subprocess.PIPE, text=True, env=dict(os.environ, ASAN_OPTIONS='detect_leaks=0'))
         if rr.returncode != 0:
-            raise RuntimeError('unit probe crashed for %s %s' % (cxx, opt))
-        tmp = os.path.join(outdir, '%s_%s.txt.tmp' % (cxx, opt[1:]))
+            raise RuntimeError('unit probe crashed for %s %s\n%s' % (cxx, opt, rr.stderr[-2000:]))
+        tmp = os.path.join(outdir, '%s.txt.tmp' % label)
         open(tmp, 'w').write(rr.stdout)
-        os.replace(tmp, os.path.join(outdir, '%s_%s.txt' % (cxx, opt[1:])))
-    with ThreadPoolExecutor(max_workers=4) as ex:
+        os.replace(tmp, os.path.join(outdir, '%s.txt' % label))
+    with ThreadPoolExecutor(max_workers=5) as ex:
         list(ex.map(one, UNIT_CFGS))
     return outdir
 
